@@ -1103,6 +1103,27 @@ func constTerm(c *ssa.Const) *Term {
 	return &Term{Op: "const", Aux: s, Typ: c.Type()}
 }
 
+// zeroTerm: the zero value of type t - a proper constant for the basic kinds (so that comparisons with it fold),
+// nil for the reference kinds, an opaque zero otherwise.
+func zeroTerm(t types.Type) *Term {
+	switch u := t.Underlying().(type) {
+	case *types.Basic:
+		switch {
+		case u.Info()&types.IsInteger != 0:
+			return &Term{Op: "const", Aux: "0", Typ: t}
+		case u.Info()&types.IsBoolean != 0:
+			return &Term{Op: "const", Aux: "false", Typ: t}
+		case u.Info()&types.IsString != 0:
+			return &Term{Op: "const", Aux: `""`, Typ: t}
+		case u.Kind() == types.UnsafePointer:
+			return &Term{Op: "const", Aux: "nil", Typ: t}
+		}
+	case *types.Pointer, *types.Chan, *types.Slice, *types.Map, *types.Signature, *types.Interface:
+		return &Term{Op: "const", Aux: "nil", Typ: t}
+	}
+	return &Term{Op: "const", Aux: "zero:" + shortType(t), Typ: t}
+}
+
 func (ex *explorer) emit(st *State, s Step) *Step {
 	f := st.top()
 	s.Fn = f.fn
@@ -1766,7 +1787,7 @@ func (ex *explorer) simple(st *State, in ssa.Instruction) {
 		f.env[in] = a
 		st.fresh[a.Key()] = true
 		et := f.ty(in.Type().Underlying().(*types.Pointer).Elem())
-		st.store(a, &Term{Op: "const", Aux: "zero:" + shortType(et), Typ: et})
+		st.store(a, zeroTerm(et))
 	case *ssa.Store:
 		addr, val := ex.eval(st, in.Addr), ex.eval(st, in.Val)
 		local := false
